@@ -817,6 +817,9 @@ class NoTraceOracle(Observer):
         ts0, arrs0, hs0, share0 = self.snap
         ts1, arrs1, hs1, share1 = self._snapshot(w)
         kind = f"{ev['k']}:{ev.get('form') or ev.get('op') or ''}/{'injected' if ev.get('kf') else 'natural'}"
+        # root-cause feature: the target was left over from a cleared family (C09's root cause) and
+        # the statement died of an internal error rather than of a documented rejection
+        feat = f"/stale_family/exc={out.exc}" if (ev.get("tgt") in self.lingering) else ""
         if hs0 != hs1:
             w.violation("C13", "C13.handles", f"step {w.nstep}: live handles changed across a failed statement")
             return
@@ -831,7 +834,7 @@ class NoTraceOracle(Observer):
                         "C13",
                         f"C13.snapshot_{n}",
                         f"step {w.nstep}: statement ({kind}) raised {out.exc} but handle {h} changed its {n}",
-                        tag=f"C13.snapshot_{n}/{kind}",
+                        tag=f"C13.snapshot_{n}/{kind}{feat}",
                     ):
                         return
         for ha in arrs0:
@@ -841,7 +844,6 @@ class NoTraceOracle(Observer):
                     return
         if share0 != share1:
             # lingering links again: sharing is physical, so it must not change at all
-            feat = "/stale_family" if (ev.get("tgt") in self.lingering) else ""  # the target was left over from a cleared family (C09's root cause)
             if w.violation("C13", "C13.snapshot_sharing", f"step {w.nstep}: statement ({kind}) raised {out.exc} but memory sharing between tensors changed", tag=f"C13.snapshot_sharing/{kind}{feat}"):
                 return
         w.probe("c13.failed_statement_checked")
